@@ -207,6 +207,11 @@ fn const_json<'tcx>(tcx: TyCtxt<'tcx>, env: TypingEnv<'tcx>, c: &ConstOperand<'t
     let t = c.const_.ty();
     o.put("const", J::s(&format!("{}", c.const_)));
     o.put("ty", J::s(&format!("{}", t)));
+    if let mir::Const::Unevaluated(uv, _) = c.const_ {
+        if let Some(p) = uv.promoted {
+            o.put("promoted", J::Int(p.as_usize() as i64));
+        }
+    }
     match t.kind() {
         ty::FnDef(did, args) => {
             o.put("fn", callee_json(tcx, env, *did, args));
@@ -576,6 +581,25 @@ fn body_json<'tcx>(tcx: TyCtxt<'tcx>, did: LocalDefId) -> Option<J> {
         blocks.push(bo);
     }
     o.put("blocks", J::Arr(blocks));
+    // promoted constants: value when the promoted body just materialises one scalar
+    let mut proms = Vec::new();
+    for (pi, pb) in tcx.promoted_mir(def_id).iter_enumerated() {
+        let mut po = J::obj();
+        po.put("idx", J::Int(pi.as_usize() as i64));
+        let mut vals = Vec::new();
+        for data in pb.basic_blocks.iter() {
+            for st in &data.statements {
+                if let StatementKind::Assign(b) = &st.kind {
+                    if let Rvalue::Use(Operand::Constant(c), ..) = &b.1 {
+                        vals.push(const_json(tcx, env, c));
+                    }
+                }
+            }
+        }
+        po.put("consts", J::Arr(vals));
+        proms.push(po);
+    }
+    o.put("promoted", J::Arr(proms));
     let _ = Local::from_usize(0);
     Some(o)
 }
